@@ -269,3 +269,180 @@ Lemma ip_intersection_translate_range l1 l2 d :
   ip_intersection (ip_from_lines (translate_line l1 d) (translate_line l2 d)) =
   tr_isect d (ip_intersection (ip_from_lines l1 l2)).
 Proof. intros. apply ip_intersection_translate; apply isect_nosat_range; assumption. Qed.
+
+(* ================================================================================================ *)
+(* (4) the parallels iterator and Line::extents                                                      *)
+(* ================================================================================================ *)
+
+Definition tr_bs (d : point) (s : bstate) : bstate := BS (padd (b_point s) d) (b_error s).
+Definition tr_bpt (d : point) (b : bpoint) : bpoint :=
+  match b with BNormal p => BNormal (padd p d) | BExtra p => BExtra (padd p d) end.
+Definition tr_ps (d : point) (s : pstate) : pstate :=
+  PS (par_params s) (perp_params s) (thick_acc s) (thick_thr s) (flip s)
+     (tr_bs d (p_left s)) (left_error s) (tr_bs d (p_right s)) (right_error s) (next_side s) (p_offset s).
+Definition tr_np (d : point) (r : bpoint * Z * pstate) : bpoint * Z * pstate :=
+  (tr_bpt d (fst (fst r)), snd (fst r), tr_ps d (snd r)).
+Definition tr_par (d : point) (r : bstate * ltype) : bstate * ltype := (tr_bs d (fst r), snd r).
+Definition tr_line2 (d : point) (r : line * line) : line * line :=
+  (translate_line (fst r) d, translate_line (snd r) d).
+
+Lemma bnext_all_tr p s d :
+  bnext_all p (tr_bs d s) = (tr_bpt d (fst (bnext_all p s)), tr_bs d (snd (bnext_all p s))).
+Proof.
+  unfold bnext_all, tr_bs; cbn [b_point b_error].
+  destruct (error_threshold p <? b_error s); destruct (mirror_extra_points p);
+    cbn [fst snd tr_bpt b_point b_error]; f_equal; f_equal; pt_eq.
+Qed.
+
+Lemma bprevious_all_tr p s d :
+  bprevious_all p (tr_bs d s) = (tr_bpt d (fst (bprevious_all p s)), tr_bs d (snd (bprevious_all p s))).
+Proof.
+  unfold bprevious_all, tr_bs; cbn [b_point b_error].
+  destruct (b_error s <=? - error_threshold p); destruct (mirror_extra_points p);
+    cbn [fst snd tr_bpt b_point b_error negb]; f_equal; f_equal; pt_eq.
+Qed.
+
+Lemma next_parallel_tr d sd : forall fuel s,
+  next_parallel fuel (tr_ps d s) sd = option_map (tr_np d) (next_parallel fuel s sd).
+Proof.
+  induction fuel as [|f IH]; intros s; [reflexivity|].
+  destruct s as [pp qq acc thr fl pl le pr re ns po].
+  cbn [next_parallel]. destruct sd.
+  - cbn [tr_ps flip left_error right_error perp_params par_params p_left p_right thick_acc thick_thr next_side p_offset].
+    rewrite bnext_all_tr. destruct (bnext_all qq pl) as [pt b'].
+    cbn [fst snd]. destruct pt as [q|q]; cbn [tr_bpt]; [reflexivity|].
+    destruct fl.
+    + destruct (decrease_error pp le) as [e' took]. destruct took; [reflexivity|].
+      exact (IH (PS pp qq acc thr true b' e' pr re ns po)).
+    + destruct (increase_error pp le) as [e' took]. destruct took; [reflexivity|].
+      exact (IH (PS pp qq acc thr false b' e' pr re ns po)).
+  - cbn [tr_ps flip left_error right_error perp_params par_params p_left p_right thick_acc thick_thr next_side p_offset].
+    rewrite bprevious_all_tr. destruct (bprevious_all qq pr) as [pt b'].
+    cbn [fst snd]. destruct pt as [q|q]; cbn [tr_bpt]; [reflexivity|].
+    destruct fl; cbn [negb].
+    + destruct (increase_error pp re) as [e' took]. destruct took; [reflexivity|].
+      exact (IH (PS pp qq acc thr true pl le b' e' ns po)).
+    + destruct (decrease_error pp re) as [e' took]. destruct took; [reflexivity|].
+      exact (IH (PS pp qq acc thr false pl le b' e' ns po)).
+Qed.
+
+Lemma bparams_new_translate l d : bparams_new (translate_line l d) = bparams_new l.
+Proof.
+  unfold bparams_new. fold (line_delta (translate_line l d)) (line_delta l).
+  rewrite line_delta_translate. reflexivity.
+Qed.
+
+Lemma perpendicular_translate l d : perpendicular (translate_line l d) = translate_line (perpendicular l) d.
+Proof.
+  unfold perpendicular. fold (line_delta (translate_line l d)) (line_delta l). rewrite line_delta_translate.
+  unfold translate_line; cbn [l_start l_end]. f_equal. apply padd_swap.
+Qed.
+
+Lemma degenerate_translate l d :
+  point_eqb (l_start (translate_line l d)) (l_end (translate_line l d)) = point_eqb (l_start l) (l_end l).
+Proof. unfold translate_line; cbn [l_start l_end]. apply point_eqb_padd. Qed.
+
+(* the parameters ParallelsIterator::new derives from the line do not depend on its position *)
+Lemma parallels_new_translate l w so d :
+  parallels_new (translate_line l d) w so = option_map (tr_ps d) (parallels_new l w so).
+Proof.
+  unfold parallels_new. rewrite degenerate_translate.
+  set (nside := match so with SONone => SRight | SOLeft => SLeft | SORight => SRight end).
+  destruct (point_eqb (l_start l) (l_end l)) eqn:Dg.
+  - (* degenerate line: the parameters come from the fixed horizontal line *)
+    match goal with |- match next_parallel _ ?s1 _ with _ => _ end = option_map _ (match next_parallel _ ?s0 _ with _ => _ end) =>
+      change s1 with (tr_ps d s0) end.
+    rewrite next_parallel_tr. destruct (next_parallel np_fuel _ (side_swap nside)) as [[[pt e] s']|]; reflexivity.
+  - rewrite perpendicular_translate, !bparams_new_translate.
+    fold (line_delta (translate_line l d)) (line_delta l). rewrite line_delta_translate.
+    match goal with |- match next_parallel _ ?s1 _ with _ => _ end = option_map _ (match next_parallel _ ?s0 _ with _ => _ end) =>
+      change s1 with (tr_ps d s0) end.
+    rewrite next_parallel_tr. destruct (next_parallel np_fuel _ (side_swap nside)) as [[[pt e] s']|]; reflexivity.
+Qed.
+
+Definition tr_step (d : point) (r : step_result (bstate * ltype)) : step_result (bstate * ltype) :=
+  match r with
+  | Fuel_out => Fuel_out
+  | Done => Done
+  | Yield a s => Yield (tr_par d a) (tr_ps d s)
+  end.
+
+Lemma parallels_next_tr d s : parallels_next (tr_ps d s) = tr_step d (parallels_next s).
+Proof.
+  unfold parallels_next.
+  change (thick_thr (tr_ps d s)) with (thick_thr s). change (thick_acc (tr_ps d s)) with (thick_acc s).
+  change (next_side (tr_ps d s)) with (next_side s).
+  destruct (thick_thr s <? thick_acc s * thick_acc s); [reflexivity|].
+  rewrite next_parallel_tr. destruct (next_parallel np_fuel s (next_side s)) as [[[pt e] s1]|]; [|reflexivity].
+  cbn [option_map tr_np fst snd]. destruct s1 as [pp qq acc thr fl pl le pr re ns po].
+  destruct pt as [q|q]; cbn [tr_bpt tr_ps thick_acc perp_params p_offset next_side];
+    destruct po; reflexivity.
+Qed.
+
+Lemma parallels_run_tr d : forall fuel s,
+  parallels_run fuel (tr_ps d s) = option_map (map (tr_par d)) (parallels_run fuel s).
+Proof.
+  induction fuel as [|f IH]; intros s; [reflexivity|].
+  cbn [parallels_run]. rewrite parallels_next_tr.
+  destruct (parallels_next s) as [| |a s']; cbn [tr_step]; try reflexivity.
+  rewrite IH. destruct (parallels_run f s'); reflexivity.
+Qed.
+
+(* the sequence of parallels of a translated line is the translated sequence *)
+Lemma parallels_translate l w so d :
+  parallels (translate_line l d) w so = option_map (map (tr_par d)) (parallels l w so).
+Proof.
+  unfold parallels. rewrite parallels_new_translate.
+  destruct (parallels_new l w so) as [s|]; [|reflexivity]. cbn [option_map].
+  change (parallels_fuel (translate_line l d) w) with (parallels_fuel l w).
+  apply parallels_run_tr.
+Qed.
+
+Lemma last_opt_map {A B} (f : A -> B) (l : list A) : last_opt (map f l) = option_map f (last_opt l).
+Proof.
+  induction l as [|x [|y t] IH]; try reflexivity.
+  change (last_opt (map f (x :: y :: t))) with (last_opt (map f (y :: t))). rewrite IH. reflexivity.
+Qed.
+
+Definition tr_pl (d : point) (e : point * ltype) : point * ltype := (padd (fst e) d, snd e).
+
+Lemma last_alternating_tr d : forall ps rt el er,
+  last_alternating (map (tr_par d) ps) rt (tr_pl d el) (tr_pl d er) =
+  (tr_pl d (fst (last_alternating ps rt el er)), tr_pl d (snd (last_alternating ps rt el er))).
+Proof.
+  induction ps as [|[b t] rest IH]; intros rt el er; [reflexivity|].
+  cbn [map last_alternating tr_par fst snd]. destruct rt.
+  - exact (IH false el (b_point b, t)).
+  - exact (IH true (b_point b, t) er).
+Qed.
+
+(* Line::extents commutes with translation *)
+Lemma extents_translate l w so d :
+  extents (translate_line l d) w so = option_map (tr_line2 d) (extents l w so).
+Proof.
+  unfold extents. rewrite degenerate_translate, parallels_translate.
+  destruct (parallels l (sat_u32_to_i32 w) so) as [ps|]; [|reflexivity]. cbn [option_map].
+  assert (B : bparams_new (if point_eqb (l_start l) (l_end l) then horizontal_line else translate_line l d) =
+              bparams_new (if point_eqb (l_start l) (l_end l) then horizontal_line else l)).
+  { destruct (point_eqb (l_start l) (l_end l)); [reflexivity | apply bparams_new_translate]. }
+  rewrite B. set (par := bparams_new _).
+  set (reduce := padd (pos_step_major par) (pos_step_minor par)).
+  fold (line_delta (translate_line l d)) (line_delta l). rewrite line_delta_translate.
+  change (l_start (translate_line l d), LNormal) with (tr_pl d (l_start l, LNormal)).
+  set (init := (l_start l, LNormal)).
+  rewrite last_opt_map.
+  assert (LP : match option_map (tr_par d) (last_opt ps) with
+               | Some (b, t) => (b_point b, t) | None => tr_pl d init end =
+               tr_pl d (match last_opt ps with Some (b, t) => (b_point b, t) | None => init end)).
+  { destruct (last_opt ps) as [[b t]|]; reflexivity. }
+  rewrite LP. set (lastp := match last_opt ps with Some (b, t) => (b_point b, t) | None => init end).
+  assert (MK : forall e, L (fst (tr_pl d e))
+                 (psub (padd (fst (tr_pl d e)) (line_delta l)) match snd (tr_pl d e) with LNormal => P 0 0 | LExtra => reduce end) =
+               translate_line (L (fst e) (psub (padd (fst e) (line_delta l)) match snd e with LNormal => P 0 0 | LExtra => reduce end)) d).
+  { intros [q t]. unfold translate_line, tr_pl; cbn [fst snd l_start l_end]. f_equal. pt_eq. }
+  destruct so.
+  - rewrite last_alternating_tr. destruct (last_alternating ps true init init) as [el er].
+    cbn [fst snd]. unfold tr_line2; cbn [fst snd]. rewrite !MK. reflexivity.
+  - unfold tr_line2; cbn [fst snd]. rewrite !MK. reflexivity.
+  - unfold tr_line2; cbn [fst snd]. rewrite !MK. reflexivity.
+Qed.
